@@ -45,7 +45,7 @@ func linkProbes(gt string, names []string, doms []string) []EOp {
 			ps = append(ps, EOp{Kind: "users", PType: gt, Args: append([]string{u}, d...)})
 		}
 	}
-	ps = append(ps, EOp{Kind: "obs", Args: []string{"pol", "g", gt}})
+	ps = append(ps, EOp{Kind: "obs", Args: []string{"pol", "g", gt}}, EOp{Kind: "obs", Args: []string{"adapter"}})
 	return ps
 }
 
